@@ -1,6 +1,6 @@
 (* Render.v — canonical textual rendering of model results (trusted glue of the correspondence
    check; the Rust harness prints the implementation's results in the same format). *)
-From GT Require Export Visitor SchemaVisitor.
+From GT Require Export Visitor SchemaVisitor Validate.
 From Coq Require Import DecimalString.
 Local Open Scope string_scope.
 
@@ -137,4 +137,30 @@ Definition render_strace (sd : sdocument) : list string :=
   match visit_schema_document sd with
   | None => ["PANIC"]
   | Some ev => map s_sevent ev
+  end.
+
+(* ---- validation results ---- *)
+Definition s_error (e : verror) : string :=
+  "E " ++ code_of (e_rule e) ++ " | " ++ sep_by "," (map s_pos (e_locs e)) ++ " | " ++
+  match e_info e with EmptyString => "-" | i => i end.
+
+Definition rule_eqb (a b : rule_id) : bool := String.eqb (code_of a) (code_of b).
+
+(* errors grouped into maximal runs of one rule; inside a run the order is unspecified *)
+Fixpoint render_errors_aux (cur : option rule_id) (l : list verror) : list string :=
+  match l with
+  | [] => match cur with Some _ => ["#ORDERED"] | None => [] end
+  | e :: r =>
+      let same := match cur with Some c => rule_eqb c (e_rule e) | None => false end in
+      List.app (if same then []
+                else List.app (match cur with Some _ => ["#ORDERED"] | None => [] end) ["#UNORDERED"])
+               (s_error e :: render_errors_aux (Some (e_rule e)) r)
+  end.
+Definition render_errors (l : list verror) : list string := render_errors_aux None l.
+
+Definition render_outcome (o : outcome) : list string :=
+  match o with
+  | Ok errs => "OK" :: render_errors errs
+  | Panic => ["PANIC"]
+  | OutOfFuel => ["OUTOFFUEL"]
   end.
